@@ -457,6 +457,7 @@ def _iteration_independence(rep, P, construct, rel, loops: List[ast.For], g: CFG
             continue
         root = n.ast.iter if n.kind == "for" else n.ast
         used = {x.id for x in ast.walk(root) if isinstance(x, ast.Name) and isinstance(x.ctx, ast.Load)}
+        used |= {x.target.id for x in ast.walk(root) if isinstance(x, ast.AugAssign) and isinstance(x.target, ast.Name)}       # `d |= u` reads d
         for v in used:
             if v in assigned and v not in rebound and v not in states[n.id] and v not in carried:
                 carried[v] = n
